@@ -393,7 +393,8 @@ def run(ctx):
     # NAME-BOUND on the modules the property is anchored in (every property: a NameError on a
     # path of the anchored code breaks whatever is stated about that path)
     anchored = tuple(sorted({os.path.basename(x)[:-3] for x in _anchor_files(ctx.prop)}))
-    rules = list(spec['rules']) + [lambda c: names.attr_bound(c, anchored),
+    rules = list(spec['rules']) + [lambda c: names.local_before_def(c, anchored),
+                                   lambda c: names.attr_bound(c, anchored),
                                    lambda c: names.name_bound(c, anchored),
                                    lambda c: names.arg_order(c, anchored),
                                    lambda c: names.col_byname(c, anchored)]
